@@ -28,6 +28,12 @@ WORKERS = int(os.environ.get("VERIF_WORKERS", "0") or 0) or min(16, os.cpu_count
 def _worker_init(parent_pid):
     """a worker must not outlive the check that started it (e.g. when the check is killed by a timeout)"""
     import threading
+    try:        # kill -USR1 <worker pid> prints its Python stack to stderr (debugging aid for stuck solver calls)
+        import faulthandler
+        import signal
+        faulthandler.register(signal.SIGUSR1, all_threads=True)
+    except Exception:  # noqa: BLE001
+        pass
 
     def watch():
         while True:
@@ -167,6 +173,8 @@ class Check:
         Items flagged stretch=True are submitted last; when budget_s runs out, unfinished stretch
         items are dropped (recorded as undecided stretch), unfinished claimed items are errors."""
         workers = workers or WORKERS
+        if budget_s is None:        # safety net: no check may run for ever (a stuck item ends as inconclusive, never as success)
+            budget_s = int(os.environ.get("VERIF_BUDGET_S", "0") or 0) or tier(1500, 4 * 3600)
         items = sorted(items, key=lambda it: bool(it.get("stretch")))
         if workers <= 1 or len(items) <= 1:
             for it in items:
